@@ -63,10 +63,13 @@ def select__namespace_axis(self: XPathAxis, context: ta.ContextType = None) \
         else:
             name = self[0].value
 
-        for item in elem.namespace_nodes:
-            if name == '*' or name == item.prefix:
-                context.item = item
-                yield item
+        try:
+            for item in elem.namespace_nodes:
+                if name == '*' or name == item.prefix:
+                    context.item = item
+                    yield item
+        finally:
+            context.item = elem  # give the focus back, also when the consumer stops early or raises
 
 
 @method(axis('self'))
